@@ -4,7 +4,7 @@
    ids unconstrained), hence in particular for every y-monotone polygon. *)
 From Coq Require Import QArith.
 From LV Require Import Base.Prelude Base.F32 Model.Bezier Model.Winding Model.Monotone Model.MonotoneArea
-                       Proofs.C02_Monotone Proofs.C02_Area Proofs.C02_AdvArea.
+                       Proofs.C02_Monotone Proofs.C02_Area Proofs.C02_AdvArea Gen.Functions Proofs.Gen_Functions.
 Open Scope Q_scope.
 
 Definition input_ids (first : qpt * Z) (vs : list (qpt * Z * bool)) (last : qpt * Z) : list Z :=
@@ -137,6 +137,11 @@ Example C02_example :
   /\ length (basic_run ((0,0), 0%Z) [((1,1), 1%Z, false); ((-(1),2), 2%Z, true)] ((0,3), 3%Z)) = 2%nat.
 Proof. vm_compute. split; reflexivity. Qed.
 
+(* the vertex order the advanced tessellator model uses (is_after) IS fill.rs's is_after, translated from the source on
+   every run (Gen/Functions.v) *)
+Theorem C02_is_after_is_source : forall a b, src_is_after a b = is_after a b.
+Proof. exact src_is_after_is_model. Qed.
+
 Print Assumptions C02_basic_count.
 Print Assumptions C02_basic_ids.
 Print Assumptions C02_basic_ids_distinct.
@@ -155,3 +160,4 @@ Print Assumptions C02_advanced_generic_is_advanced.
 Print Assumptions C02_advanced_area_conserved.
 Print Assumptions C02_advanced_same_triangles.
 Print Assumptions C02_advanced_area_exact.
+Print Assumptions C02_is_after_is_source.
